@@ -40,6 +40,9 @@ MUTANTS = [
     ('F2', 'C03', 'scanner.py', "        try:\n            value = int(self.prefix(length))\n        except ValueError:\n", "        try:\n            value = int(self.prefix(length))\n        except ZeroDivisionError:\n"),
     # C18: the defect repaired by the third fix: commit (pending two-step generators keep the loader alive after a ConstructorError)
     ('F3', 'C18', 'constructor.py', "            # stream) alive until the next run of the cyclic garbage collector.\n            self.state_generators = []\n", "            # stream) alive until the next run of the cyclic garbage collector.\n"),
+    # C11: a process-wide scratch list, emptied in a finally (clean after every call, also after an interrupted one):
+    # visible only when another call runs while a quoted scalar is being scanned (line-level pre-emption)
+    ('M40', 'C11', 'scanner.py', "        chunks = []\n        start_mark = self.get_mark()\n        quote = self.peek()\n        self.forward()\n        chunks.extend(self.scan_flow_scalar_non_spaces(double, start_mark))\n        while self.peek() != quote:\n            chunks.extend(self.scan_flow_scalar_spaces(double, start_mark))\n            chunks.extend(self.scan_flow_scalar_non_spaces(double, start_mark))\n        self.forward()\n        end_mark = self.get_mark()\n        return ScalarToken(''.join(chunks), False, start_mark, end_mark,\n                style)\n", "        chunks = Scanner._flow_chunks      # one reusable scratch list for the whole process\n        del chunks[:]\n        try:\n            start_mark = self.get_mark()\n            quote = self.peek()\n            self.forward()\n            chunks.extend(self.scan_flow_scalar_non_spaces(double, start_mark))\n            while self.peek() != quote:\n                chunks.extend(self.scan_flow_scalar_spaces(double, start_mark))\n                chunks.extend(self.scan_flow_scalar_non_spaces(double, start_mark))\n            self.forward()\n            end_mark = self.get_mark()\n            return ScalarToken(''.join(chunks), False, start_mark, end_mark,\n                    style)\n        finally:\n            del chunks[:]\n\n    _flow_chunks = []\n"),
 ]
 
 
